@@ -583,3 +583,677 @@ func ruleR194(c *Ctx) {
 		c.Missing("start event records", "no completion monitor that records start events was found")
 	}
 }
+
+// ---- R195–R200 (round 9) ----
+
+func init() {
+	register(&Rule{ID: "R195", Title: "a triggered start event starts its token: in the handler of the start message the call that starts the node's flow is on every path", Min: 2, Run: ruleR195})
+	register(&Rule{ID: "R196", Title: "a task's answer travels with the action: what the per-request goroutine of a task sends on the reply channel is a flowAction that carries the response", Min: 1, Run: ruleR196})
+	register(&Rule{ID: "R197", Title: "a relay outlives its context: the clause of the relay loop that observes the context's cancellation does not leave the loop (the source tracer keeps serving until its senders are done)", Min: 1, Run: ruleR197})
+	register(&Rule{ID: "R198", Title: "every ended token is struck off: in the flow tracker's handling of a TerminationTrace the delete from the table of live flows is on every path", Min: 1, Run: ruleR198})
+	register(&Rule{ID: "R199", Title: "an evaluation error is not a true condition: in the token's probe, the index of a flow is reported only on a path on which the evaluation returned no error", Min: 1, Run: ruleR199})
+	register(&Rule{ID: "R200", Title: "a probe report belongs to one token: no node keeps a probe report in a single field (tokens probe concurrently; a second report would overwrite the first)", Min: 0, Run: ruleR200})
+}
+
+func ruleR195(c *Ctx) {
+	p := c.P
+	what := "the completion monitor learns that a start event fired from the trace of the token it starts (a FlowTrace, or a TerminationTrace when the start event leads nowhere). A start event that is triggered and starts no token is never counted: the instance completes its work and never reports completion"
+	n := 0
+	isStartMsg := func(t types.Type) bool { return isNamed(t, pathBpmn, "startMessage") }
+	for _, f := range p.Funcs {
+		if f.Body == nil || f.Pkg.PkgPath != pathBpmn {
+			continue
+		}
+		in := info(f)
+		g := p.Graph(f)
+		for _, d := range typeDispatches(p, f, isIMessage) {
+			for _, a := range d {
+				if len(a.Types) != 1 || !isStartMsg(a.Types[0]) || len(a.Body) == 0 {
+					continue
+				}
+				n++
+				starts := func(nd ast.Node) bool {
+					for _, cl := range callsIn(nd) {
+						if cf := p.byObj[callee(in, cl)]; cf != nil && cf.Pkg == f.Pkg && reachesCallee(p, cf, func(fn *types.Func) bool { return fn.Name() == "newFlow" }, 1, map[*FuncInfo]bool{}) {
+							return true
+						}
+						if fn := callee(in, cl); fn != nil && fn.Name() == "newFlow" {
+							return true
+						}
+					}
+					return false
+				}
+				entry, ok := g.EntryOfStmts(a.Body)
+				if !ok {
+					continue
+				}
+				bad := g.RegionPaths(entry, regionOfStmts(a.Body), starts)
+				if len(bad) > 0 && starts(entry.Node()) {
+					bad = nil
+				}
+				wit := "every path starts the node's flow"
+				if len(bad) > 0 {
+					wit = "a path leaves the handler without starting a flow: " + witnessLines(g, bad[:1])
+				}
+				c.Check(len(bad) == 0, f, a.Node, "handling of the start message in "+f.QName(), what, wit)
+			}
+		}
+	}
+	if n == 0 {
+		c.Missing("start message handlers", "no handler of startMessage was found")
+	}
+}
+
+func ruleR196(c *Ctx) {
+	p := c.P
+	what := "the answer to a task (error and handler, results, data outputs) reaches the token inside the flowAction the task replies with; the token stores the results, emits the ErrorTrace and applies the error mode. A reply of another kind ('the task has no outgoing flow, the token ends here anyway') drops all of that: nothing is stored, no error is traced, retry never re-requests"
+	n := 0
+	for _, f := range p.Funcs {
+		if f.Body == nil || f.Pkg.PkgPath != pathBpmn || f.Lit == nil {
+			continue
+		}
+		r := f.Root()
+		if r.Obj == nil || recvNamed(r.Obj) == nil || recvNamed(r.Obj).Obj().Name() != "genericTask" {
+			continue
+		}
+		in := info(f)
+		// the per-request goroutine: a literal that builds a FlowActionResponse
+		builds := false
+		inspectNoLit(f.Body, func(m ast.Node) bool {
+			if lit, ok := m.(*ast.CompositeLit); ok && isNamed(in.TypeOf(lit), pathBpmn, "FlowActionResponse") {
+				builds = true
+			}
+			return true
+		})
+		if !builds {
+			continue
+		}
+		inspectNoLit(f.Body, func(m ast.Node) bool {
+			s, ok := m.(*ast.SendStmt)
+			if !ok || !isReplyChan(in.TypeOf(s.Chan)) {
+				return true
+			}
+			n++
+			carries := false
+			if lit, isLit := unparen(s.Value).(*ast.CompositeLit); isLit && isNamed(in.TypeOf(lit), pathBpmn, "flowAction") {
+				for _, el := range lit.Elts {
+					if kv, ok := el.(*ast.KeyValueExpr); ok {
+						if id, ok := kv.Key.(*ast.Ident); ok && id.Name == "response" && !isNilIdent(kv.Value) {
+							carries = true
+						}
+					}
+				}
+			}
+			if id, isId := unparen(s.Value).(*ast.Ident); isId && !carries {
+				if o := objOf(in, id); o != nil {
+					defs, _ := localDefs(in, f.Body, o)
+					for _, d := range defs {
+						if lit, isLit := unparen(d).(*ast.CompositeLit); isLit && isNamed(in.TypeOf(lit), pathBpmn, "flowAction") {
+							for _, el := range lit.Elts {
+								if kv, ok := el.(*ast.KeyValueExpr); ok {
+									if kid, ok := kv.Key.(*ast.Ident); ok && kid.Name == "response" {
+										carries = true
+									}
+								}
+							}
+						}
+					}
+				}
+			}
+			c.Check(carries, f, s, "reply of a task request", what, ifElse(carries, "a flowAction with the response", "sends "+typeString(in.TypeOf(s.Value))+" without the response"))
+			return true
+		})
+	}
+	if n == 0 {
+		c.Missing("task replies", "no reply send in the per-request goroutine of genericTask was found")
+	}
+}
+
+func ruleR197(c *Ctx) {
+	p := c.P
+	what := "an instance can be built with one context and started with another: its tokens live on after the instance's own context ended, the inner tracer keeps serving them until its senders are done — and the relay has to carry their traces (the CeaseFlowTrace among them) to the instance's tracer until then"
+	n := 0
+	for _, f := range p.Funcs {
+		if f.Body == nil || f.Pkg.PkgPath != pathTracing || f.Root().Obj == nil || f.Root().Obj.Name() != "NewRelay" {
+			continue
+		}
+		in := info(f)
+		inspectNoLit(f.Body, func(m ast.Node) bool {
+			cc, ok := m.(*ast.CommClause)
+			if !ok || cc.Comm == nil {
+				return true
+			}
+			var rx ast.Expr
+			if es, ok := cc.Comm.(*ast.ExprStmt); ok {
+				if u, ok := es.X.(*ast.UnaryExpr); ok && u.Op == token.ARROW {
+					rx = u.X
+				}
+			}
+			if rx == nil {
+				return true
+			}
+			// a context's Done channel, directly or held in a local
+			isDone := isCtxDoneCall(in, rx)
+			if id, isId := unparen(rx).(*ast.Ident); isId && !isDone {
+				if o := objOf(in, id); o != nil {
+					defs, _ := localDefs(in, f.Root().Body, o)
+					for _, d := range defs {
+						if isCtxDoneCall(in, d) {
+							isDone = true
+						}
+					}
+				}
+			}
+			if !isDone {
+				return true
+			}
+			n++
+			leaves := false
+			for _, st := range cc.Body {
+				inspectNoLit(st, func(z ast.Node) bool {
+					switch x := z.(type) {
+					case *ast.ReturnStmt:
+						leaves = true
+					case *ast.BranchStmt:
+						if x.Tok == token.BREAK && x.Label != nil || x.Tok == token.GOTO {
+							leaves = true
+						}
+					}
+					return true
+				})
+			}
+			c.Check(!leaves, f, cc, "cancellation clause of the relay loop", what, ifElse(leaves, "the clause leaves the loop", "the loop goes on until the source tracer is done"))
+			return true
+		})
+	}
+	if n == 0 {
+		c.Missing("relay loop", "no clause of NewRelay's loop that observes the context was found")
+	}
+}
+
+func ruleR198(c *Ctx) {
+	p := c.P
+	what := "the join waits for the live tokens of its fork. A token the join completes itself ends with a TerminationTrace like any other; if the tracker keeps it 'because the node knows about it', it is still in the cohort the next time the same fork/join pair is activated (a loop) and the join waits for a dead token for ever"
+	n := 0
+	for _, f := range p.Funcs {
+		if f.Body == nil || f.Pkg.PkgPath != pathBpmn {
+			continue
+		}
+		r := f.Root()
+		if r.Obj == nil || recvNamed(r.Obj) == nil || recvNamed(r.Obj).Obj().Name() != "flowTracker" {
+			continue
+		}
+		in := info(f)
+		g := p.Graph(f)
+		for _, d := range typeDispatches(p, f, isITrace) {
+			for _, a := range d {
+				if len(a.Types) != 1 || !isNamed(a.Types[0], pathBpmn, "TerminationTrace") || len(a.Body) == 0 {
+					continue
+				}
+				n++
+				deletes := func(nd ast.Node) bool {
+					for _, cl := range callsIn(nd) {
+						if isBuiltin(in, cl, "delete") {
+							return true
+						}
+					}
+					return false
+				}
+				entry, ok := g.EntryOfStmts(a.Body)
+				if !ok {
+					continue
+				}
+				bad := g.RegionPaths(entry, regionOfStmts(a.Body), deletes)
+				if len(bad) > 0 && deletes(entry.Node()) {
+					bad = nil
+				}
+				wit := "the flow is deleted from the live table on every path"
+				if len(bad) > 0 {
+					wit = "a path keeps the ended flow: " + witnessLines(g, bad[:1])
+				}
+				c.Check(len(bad) == 0, f, a.Node, "TerminationTrace in the flow tracker", what, wit)
+			}
+		}
+	}
+	if n == 0 {
+		c.Missing("tracker termination arm", "no TerminationTrace arm in the flow tracker was found")
+	}
+}
+
+func ruleR199(c *Ctx) {
+	p := c.P
+	what := "a condition that cannot be evaluated for the current data (a variable that was never set, a non-boolean result, a compile error) is reported with an ErrorTrace and counts as not true; reported as a true index it sends the token down that flow ahead of a later flow that really is true and ahead of the default"
+	n := 0
+	for _, f := range p.Funcs {
+		if f.Body == nil || f.Pkg.PkgPath != pathBpmn {
+			continue
+		}
+		in := info(f)
+		for _, d := range typeDispatches(p, f, isIAction) {
+			for _, a := range d {
+				if len(a.Types) != 1 || !isNamed(a.Types[0], pathBpmn, "probeAction") {
+					continue
+				}
+				// error variables that come from the evaluation
+				errs := map[types.Object]bool{}
+				for _, st := range a.Body {
+					inspectNoLit(st, func(m ast.Node) bool {
+						if as, ok := m.(*ast.AssignStmt); ok && len(as.Rhs) == 1 && len(as.Lhs) == 2 {
+							if cl, ok := unparen(as.Rhs[0]).(*ast.CallExpr); ok {
+								if cf := p.byObj[callee(in, cl)]; cf != nil && reachesCallee(p, cf, isConditionEvaluator, 2, map[*FuncInfo]bool{}) {
+									if id, ok := as.Lhs[1].(*ast.Ident); ok {
+										errs[objOf(in, id)] = true
+									}
+								}
+							}
+						}
+						return true
+					})
+				}
+				if len(errs) == 0 {
+					continue
+				}
+				for _, st := range a.Body {
+					inspectNoLit(st, func(m ast.Node) bool {
+						as, ok := m.(*ast.AssignStmt)
+						if !ok || len(as.Rhs) != 1 {
+							return true
+						}
+						cl, ok := unparen(as.Rhs[0]).(*ast.CallExpr)
+						if !ok || !isBuiltin(in, cl, "append") {
+							return true
+						}
+						n++
+						clean := false
+						for _, pc := range polarConds(p, as) {
+							be, ok := unparen(pc.cond).(*ast.BinaryExpr)
+							if !ok {
+								continue
+							}
+							var side ast.Expr
+							if tv, has := in.Types[be.Y]; has && tv.IsNil() {
+								side = be.X
+							} else if tv, has := in.Types[be.X]; has && tv.IsNil() {
+								side = be.Y
+							}
+							if id, isId := unparen(exprOrNil(side)).(*ast.Ident); isId && errs[objOf(in, id)] {
+								if (be.Op == token.EQL && pc.positive) || (be.Op == token.NEQ && !pc.positive) {
+									clean = true
+								}
+							}
+						}
+						c.Check(clean, f, as, "index of a probed flow is reported", what, ifElse(clean, "only where the evaluation's error is nil", "also on paths where the evaluation returned an error"))
+						return true
+					})
+				}
+			}
+		}
+	}
+	if n == 0 {
+		c.Missing("probe loop", "no probeAction arm that evaluates conditions and collects indices was found")
+	}
+}
+
+func ruleR200(c *Ctx) {
+	p := c.P
+	what := "several tokens can be probing an exclusive gateway at the same time, and each sends its report and its next request back to back. One field for 'the report that is ahead of its request' is overwritten when a second token's report lands between the two sends of the first: the first token is never answered — no flow, no default, no error"
+	isReport := func(t types.Type) bool {
+		if pt, ok := t.(*types.Pointer); ok {
+			t = pt.Elem()
+		}
+		return isNamed(t, pathBpmn, "gatewayProbingReport")
+	}
+	for _, pk := range p.Target {
+		if pk.PkgPath != pathBpmn {
+			continue
+		}
+		scope := pk.Types.Scope()
+		names := scope.Names()
+		sort.Strings(names)
+		for _, nm := range names {
+			tn, ok := scope.Lookup(nm).(*types.TypeName)
+			if !ok {
+				continue
+			}
+			st, ok := tn.Type().Underlying().(*types.Struct)
+			if !ok || nm == "gatewayProbingReport" {
+				continue
+			}
+			for i := 0; i < st.NumFields(); i++ {
+				if isReport(st.Field(i).Type()) {
+					c.Bad(nil, posNode(st.Field(i).Pos()), "field "+nm+"."+st.Field(i).Name()+" holds one probe report", what, "type "+typeString(st.Field(i).Type()))
+				}
+			}
+		}
+	}
+}
+
+// ---- R201–R203 (round 9) ----
+
+func init() {
+	register(&Rule{ID: "R201", Title: "what a trace carries is not reused: a slice put into a trace that is sent is made for that trace, never a re-slice of a field of the sender (a later step would rewrite a trace subscribers still hold)", Min: 1, Run: ruleR201})
+	register(&Rule{ID: "R202", Title: "references are compared exactly: the engine never matches an id or a reference with HasSuffix / HasPrefix / Contains / EqualFold", Min: 0, Run: ruleR202})
+	register(&Rule{ID: "R203", Title: "an answered output is stored whatever its value: in the functions that turn a task's answer into items, the store is controlled by the presence of the declared name in the answer only", Min: 2, Run: ruleR203})
+}
+
+func ruleR201(c *Ctx) {
+	p := c.P
+	what := "subscribers read a trace after the tracer has handed it over — a buffered or lagging one much later. A FlowTrace whose list of flows lives in a buffer the token reuses at its next fork then lists the next fork's flows and ids: two subscribers see different traces, and the flow started at the first fork is announced by no trace at all"
+	n := 0
+	for _, f := range p.Funcs {
+		if f.Body == nil || f.Pkg.PkgPath != pathBpmn {
+			continue
+		}
+		in := info(f)
+		inspectNoLit(f.Body, func(m ast.Node) bool {
+			cl, ok := m.(*ast.CallExpr)
+			if !ok || !isTracerMethod(in, cl, "Send") || len(cl.Args) != 1 {
+				return true
+			}
+			lit, ok := unparen(cl.Args[0]).(*ast.CompositeLit)
+			if !ok {
+				return true
+			}
+			for _, el := range lit.Elts {
+				kv, ok := el.(*ast.KeyValueExpr)
+				if !ok {
+					continue
+				}
+				if _, isSl := in.TypeOf(kv.Value).Underlying().(*types.Slice); !isSl {
+					continue
+				}
+				n++
+				reused := ""
+				check := func(e ast.Expr) {
+					e = unparen(e)
+					if se, ok := e.(*ast.SliceExpr); ok {
+						if fv := fieldOf(in, se.X); fv != nil {
+							reused = "a re-slice of the field " + fv.Name()
+						}
+					}
+					if fv := fieldOf(in, e); fv != nil {
+						if r := rootIdent(e); r != nil {
+							if rv, ok := objOf(in, r).(*types.Var); ok && isParamOrRecv(f.Root(), rv) && !isParam(f.Root(), rv) {
+								reused = "the field " + fv.Name() + " of the sender"
+							}
+						}
+					}
+				}
+				check(kv.Value)
+				if id, isId := unparen(kv.Value).(*ast.Ident); isId {
+					if o := objOf(in, id); o != nil && isLocalVar(f.Root(), o) {
+						defs, _ := localDefs(in, f.Root().Body, o)
+						for _, d := range defs {
+							check(d)
+						}
+					}
+				}
+				c.Check(reused == "", f, kv, "slice "+exprString(kv.Value)+" carried by a "+typeString(in.TypeOf(lit)), what, ifElse(reused == "", "made for this trace", "it is "+reused))
+			}
+			return true
+		})
+	}
+	if n == 0 {
+		c.Missing("slices in traces", "no trace literal with a slice-valued field was found at a Send")
+	}
+}
+
+func ruleR202(c *Ctx) {
+	p := c.P
+	what := "ids are opaque: `check` is a suffix of `recheck`, `task` of `subtask`. A boundary event that is attached by suffix also attaches to every activity whose id ends the referenced id — it reacts while a different activity waits, and its exception flow can continue twice"
+	isIdLike := func(in *types.Info, e ast.Expr) bool {
+		t := in.TypeOf(e)
+		if t == nil {
+			return false
+		}
+		if nt := namedOf(t); nt != nil && nt.Obj().Pkg() != nil && nt.Obj().Pkg().Path() == pathSchema {
+			switch nt.Obj().Name() {
+			case "Id", "IdRef", "QName":
+				return true
+			}
+		}
+		s := strings.ToLower(exprString(e))
+		return strings.Contains(s, "ref") || strings.HasSuffix(s, "id") || strings.Contains(s, "id)")
+	}
+	for _, f := range p.Funcs {
+		if f.Body == nil || f.Pkg.PkgPath != pathBpmn {
+			continue
+		}
+		in := info(f)
+		inspectNoLit(f.Body, func(m ast.Node) bool {
+			cl, ok := m.(*ast.CallExpr)
+			if !ok || len(cl.Args) != 2 {
+				return true
+			}
+			fn := callee(in, cl)
+			if fn == nil || fn.Pkg() == nil || fn.Pkg().Path() != "strings" {
+				return true
+			}
+			switch fn.Name() {
+			case "HasSuffix", "HasPrefix", "Contains", "EqualFold":
+			default:
+				return true
+			}
+			if isIdLike(in, cl.Args[0]) || isIdLike(in, cl.Args[1]) {
+				c.Bad(f, cl, "inexact comparison of a reference: "+exprString(cl), what, "strings."+fn.Name()+" on an id or reference")
+			}
+			return true
+		})
+	}
+}
+
+func ruleR203(c *Ctx) {
+	p := c.P
+	what := "a declared data output that the answer sets to nil (or to a nil pointer) clears the output: later inputs, conditions and snapshots see it empty. Skipped 'because there is nothing to encode', the value an earlier task stored stays visible as if this answer had never been given"
+	n := 0
+	for _, f := range p.Funcs {
+		if f.Body == nil || f.Obj == nil || f.Pkg.PkgPath != pathBpmn || !strings.HasPrefix(f.Obj.Name(), "ApplyTask") {
+			continue
+		}
+		in := info(f)
+		// comma-ok results of map lookups
+		okVars := map[types.Object]bool{}
+		inspectNoLit(f.Body, func(m ast.Node) bool {
+			if as, ok := m.(*ast.AssignStmt); ok && len(as.Lhs) == 2 && len(as.Rhs) == 1 {
+				if ix, ok := unparen(as.Rhs[0]).(*ast.IndexExpr); ok {
+					if _, isMap := in.TypeOf(ix.X).Underlying().(*types.Map); isMap {
+						if id, ok := as.Lhs[1].(*ast.Ident); ok {
+							okVars[objOf(in, id)] = true
+						}
+					}
+				}
+			}
+			return true
+		})
+		inspectNoLit(f.Body, func(m ast.Node) bool {
+			as, ok := m.(*ast.AssignStmt)
+			if !ok || len(as.Lhs) != 1 {
+				return true
+			}
+			ix, ok := unparen(as.Lhs[0]).(*ast.IndexExpr)
+			if !ok {
+				return true
+			}
+			if _, isMap := in.TypeOf(ix.X).Underlying().(*types.Map); !isMap {
+				return true
+			}
+			n++
+			var extra []string
+			for _, pc := range polarConds(p, as) {
+				e := unparen(pc.cond)
+				if u, isNot := e.(*ast.UnaryExpr); isNot && u.Op == token.NOT {
+					e = unparen(u.X)
+				}
+				if id, isId := e.(*ast.Ident); isId {
+					if okVars[objOf(in, id)] {
+						continue
+					}
+					if o := objOf(in, id); o != nil && o.Type() == types.Typ[types.Bool] {
+						continue // `found` of ExtensionElements()
+					}
+				}
+				if be, isBin := e.(*ast.BinaryExpr); isBin {
+					// nil tests of the declaration (`field != nil`)
+					if tv, has := in.Types[be.Y]; has && tv.IsNil() {
+						continue
+					}
+				}
+				extra = append(extra, exprString(pc.cond))
+			}
+			c.Check(len(extra) == 0, f, as, "store of an answered output in "+f.QName(), what, ifElse(len(extra) == 0, "controlled by the presence of the declared name only", fmt.Sprintf("also controlled by %v", extra)))
+			return true
+		})
+	}
+	if n == 0 {
+		c.Missing("answer to items", "no ApplyTask* function that stores into a map was found")
+	}
+}
+
+// ---- R204, R205 (round 9) ----
+
+func init() {
+	register(&Rule{ID: "R204", Title: "every flow a join hands out is marked unconditional: in a distributor, a flowAction that carries more than one sequence flow does not mark a fixed number of them", Min: 1, Run: ruleR204})
+	register(&Rule{ID: "R205", Title: "a token asks its node again only after its request was answered or withdrawn: every jump back to the select that posts the request sits in the clause that received the answer or in the termination clause", Min: 2, Run: ruleR205})
+}
+
+func ruleR204(c *Ctx) {
+	p := c.P
+	what := "the flows a parallel or inclusive gateway releases were decided by the gateway; the token must take them as they are. A flow that is not marked unconditional has its condition evaluated again by the token: a parallel fork whose second flow still carries a condition from the days it was an XOR loses that branch, and the join behind it never fires"
+	dist := distributorFuncs(p)
+	n := 0
+	for _, f := range p.Funcs {
+		if f.Body == nil || f.Obj == nil || !dist[f.Obj] {
+			continue
+		}
+		in := info(f)
+		inspectNoLit(f.Body, func(m ast.Node) bool {
+			lit, ok := m.(*ast.CompositeLit)
+			if !ok || !isNamed(in.TypeOf(lit), pathBpmn, "flowAction") {
+				return true
+			}
+			var flows, marks ast.Expr
+			for _, el := range lit.Elts {
+				if kv, ok := el.(*ast.KeyValueExpr); ok {
+					if id, ok := kv.Key.(*ast.Ident); ok {
+						switch id.Name {
+						case "sequenceFlows":
+							flows = kv.Value
+						case "unconditionalFlows":
+							marks = kv.Value
+						}
+					}
+				}
+			}
+			if flows == nil {
+				return true
+			}
+			n++
+			// how many flows? a one-element window s[i:i+1] / s[i:rangeEnd] is fine with anything; an open or wider
+			// window needs marks that grow with it (a slice of an index table), not a literal
+			oneFlow := false
+			if se, ok := unparen(flows).(*ast.SliceExpr); ok && se.High != nil && se.Low != nil {
+				if be, ok := unparen(se.High).(*ast.BinaryExpr); ok && be.Op == token.ADD && sameRef(in, be.X, se.Low) {
+					if tv, has := in.Types[be.Y]; has && tv.Value != nil && tv.Value.String() == "1" {
+						oneFlow = true
+					}
+				}
+			}
+			ok2, wit := true, "the marks are a window of an index table (or there is exactly one flow)"
+			if marks == nil {
+				ok2, wit = false, "no flow is marked unconditional"
+			} else if ml, isLit := unparen(marks).(*ast.CompositeLit); isLit && !oneFlow {
+				ok2, wit = false, fmt.Sprintf("%s carries a window of flows, but %d index(es) are marked by a literal", exprString(flows), len(ml.Elts))
+			}
+			c.Check(ok2, f, lit, "flows handed to a token by "+f.QName(), what, wit)
+			return true
+		})
+	}
+	if n == 0 {
+		c.Missing("distributor actions", "no flowAction literal in a distributor was found")
+	}
+}
+
+func ruleR205(c *Ctx) {
+	p := c.P
+	what := "the select header `<-f.current.NextAction(ctx, f)` posts a request every time it is evaluated. Jumping back to it from a clause that neither received the answer nor withdrew the token (a watchdog timer, say) posts a second request for the same token: a join counts it as another arrival, fires early, hands a flow to a reply channel nobody reads, and the real late token is parked for ever"
+	n := 0
+	for _, f := range p.Funcs {
+		if f.Body == nil || f.Pkg.PkgPath != pathBpmn {
+			continue
+		}
+		in := info(f)
+		inspectNoLit(f.Body, func(m ast.Node) bool {
+			ls, ok := m.(*ast.LabeledStmt)
+			if !ok {
+				return true
+			}
+			sel, ok := ls.Stmt.(*ast.SelectStmt)
+			if !ok {
+				return true
+			}
+			// the clause kinds of this select
+			kind := map[*ast.CommClause]string{}
+			posts := false
+			for _, st := range sel.Body.List {
+				cc := st.(*ast.CommClause)
+				var rx ast.Expr
+				switch cm := cc.Comm.(type) {
+				case *ast.ExprStmt:
+					if u, ok := cm.X.(*ast.UnaryExpr); ok && u.Op == token.ARROW {
+						rx = u.X
+					}
+				case *ast.AssignStmt:
+					if len(cm.Rhs) == 1 {
+						if u, ok := unparen(cm.Rhs[0]).(*ast.UnaryExpr); ok && u.Op == token.ARROW {
+							rx = u.X
+						}
+					}
+				}
+				if rx == nil {
+					kind[cc] = "other"
+					continue
+				}
+				if cl, ok := unparen(rx).(*ast.CallExpr); ok {
+					if fn := callee(in, cl); fn != nil && fn.Name() == "NextAction" {
+						kind[cc] = "answer"
+						posts = true
+						continue
+					}
+				}
+				if isCtxDoneCall(in, rx) {
+					kind[cc] = "done"
+					continue
+				}
+				if et, ok := chanElem(in.TypeOf(rx)); ok && et == types.Typ[types.Bool] {
+					kind[cc] = "termination"
+					continue
+				}
+				kind[cc] = "other (" + exprString(rx) + ")"
+			}
+			if !posts {
+				return true
+			}
+			inspectNoLit(sel, func(z ast.Node) bool {
+				bs, ok := z.(*ast.BranchStmt)
+				if !ok || bs.Tok != token.GOTO || bs.Label == nil || bs.Label.Name != ls.Label.Name {
+					return true
+				}
+				n++
+				k := "outside the select's clauses"
+				for cur := p.Parent(bs); cur != nil && cur != ast.Node(sel); cur = p.Parent(cur) {
+					if cc, ok := cur.(*ast.CommClause); ok {
+						if kk, has := kind[cc]; has {
+							k = kk
+						}
+					}
+				}
+				c.Check(k == "answer" || k == "termination", f, bs, "goto "+bs.Label.Name+" (the request is posted again)", what, "in the "+k+" clause")
+				return true
+			})
+			return true
+		})
+	}
+	if n == 0 {
+		c.Missing("re-requests", "no jump back to a select that posts a NextAction request was found")
+	}
+}
